@@ -246,10 +246,12 @@ def canon(x, ctx, depth=0):
         return str(x)
     if isinstance(x, torch.Size):
         return list(x)
-    try:  # key views and other iterables
-        return ["V", [canon(v, ctx, depth + 1) for v in list(x)]]
-    except Exception:  # noqa: BLE001
-        return ["?", type(x).__name__]
+    if hasattr(type(x), "__iter__") and not hasattr(x, "_tensordict"):   # key views and other real iterables
+        try:
+            return ["V", [canon(v, ctx, depth + 1) for v in _bounded(x)]]
+        except Exception:  # noqa: BLE001
+            pass
+    return ["?", type(x).__name__]
 
 
 def exc_enum(e):
@@ -263,6 +265,19 @@ def exc_enum(e):
 
 
 # ------------------------------------------------------------------------------------------------- read fronts
+def _bounded(it, n=5000):
+    """a list of what an iterable yields — never more than n items, and never by the __getitem__ protocol of an object that
+    is not an iterable (a wrong result type must be an observation, not an endless loop)"""
+    import itertools
+    if isinstance(it, (list, tuple)):
+        return list(it[:n])
+    if not hasattr(type(it), "__iter__"):
+        return ["not-iterable", type(it).__name__]
+    if isinstance(it, TensorDictBase) or is_nt(it) or isinstance(it, torch.Tensor):
+        return ["unexpected-result-type", type(it).__name__]
+    return list(itertools.islice(iter(it), n))
+
+
 def _first_tensor_key(td):
     for k, v in children(td):
         if isinstance(v, torch.Tensor):
@@ -284,23 +299,23 @@ def fronts_for(td):
 
     def add(name, meths, f):
         F.append((name, meths, f))
-    add("keys()", [], lambda t: list(t.keys()))
-    add("keys(T)", ["_nested_keys"], lambda t: list(t.keys(True)))
-    add("keys(T,T)", ["_nested_keys"], lambda t: list(t.keys(True, True)))
-    add("keys(F,T)", ["_nested_keys"], lambda t: list(t.keys(False, True)))
-    add("keys(T,T,nt)", ["_nested_keys"], lambda t: list(t.keys(True, True, is_leaf=_is_leaf_nontensor)))
-    add("keys(T,T,sort)", ["_nested_keys"], lambda t: list(t.keys(True, True, sort=True)))
-    add("values(T,T)", [], lambda t: list(t.values(True, True)))
-    add("items(T,T)", [], lambda t: [list(kv) for kv in t.items(True, True)])
+    add("keys()", [], lambda t: _bounded(t.keys()))
+    add("keys(T)", ["_nested_keys"], lambda t: _bounded(t.keys(True)))
+    add("keys(T,T)", ["_nested_keys"], lambda t: _bounded(t.keys(True, True)))
+    add("keys(F,T)", ["_nested_keys"], lambda t: _bounded(t.keys(False, True)))
+    add("keys(T,T,nt)", ["_nested_keys"], lambda t: _bounded(t.keys(True, True, is_leaf=_is_leaf_nontensor)))
+    add("keys(T,T,sort)", ["_nested_keys"], lambda t: _bounded(t.keys(True, True, sort=True)))
+    add("values(T,T)", [], lambda t: _bounded(t.values(True, True)))
+    add("items(T,T)", [], lambda t: _bounded(t.items(True, True)))
     add("_values_list()", ["_values_list"], lambda t: t._values_list())
     add("_values_list(T,T)", ["_values_list"], lambda t: t._values_list(True, True))
     add("_values_list(T,T,ntl)", ["_values_list"], lambda t: t._values_list(True, True, is_leaf=_NESTED_TENSORS_AS_LISTS))
     add("_values_list(T,F)", ["_values_list"], lambda t: t._values_list(True, False))
-    add("_items_list(T,T)", ["_items_list"], lambda t: [list(x) for x in t._items_list(True, True)])
-    add("_items_list()", ["_items_list"], lambda t: [list(x) for x in t._items_list()])
+    add("_items_list(T,T)", ["_items_list"], lambda t: t._items_list(True, True))
+    add("_items_list()", ["_items_list"], lambda t: t._items_list())
     add("_values_list(sorting)", ["_values_list", "_items_list"],
         lambda t: t._values_list(True, True, sorting_keys=sorted(t.keys(True, True), key=str)))
-    add("sorted_keys", ["sorted_keys"], lambda t: list(t.sorted_keys))
+    add("sorted_keys", ["sorted_keys"], lambda t: t.sorted_keys)
     add("flatten_keys()", ["flatten_keys"], lambda t: t.flatten_keys())
     add("flatten_keys(',')", ["flatten_keys"], lambda t: t.flatten_keys(","))
     add("flatten_keys(sep=)", ["flatten_keys"], lambda t: t.flatten_keys(separator="."))
@@ -318,12 +333,12 @@ def fronts_for(td):
     add("add1", ["_items_list"], lambda t: t + 1)
     add("names", ["names"], lambda t: list(t.names) if t._has_names() else None)
     add("batch_size", [], lambda t: list(t.batch_size))
-    add("is_locked-free:get-all", ["_get_str"], lambda t: [[k, t.get(k)] for k in sorted(t.keys(), key=str)])
+    add("is_locked-free:get-all", ["_get_str"], lambda t: [[k, t.get(k)] for k in sorted(_bounded(t.keys()), key=str)])
     add("is_empty", [], lambda t: t.is_empty())
     if td.batch_dims >= 1 and td.batch_size[0] > 0:
         add("vmap(get)", ["_add_batch_dim"], _vmap_front)
     if is_lazy(td):
-        add("_key_list", ["_key_list"], lambda t: list(t._key_list()))
+        add("_key_list", ["_key_list"], lambda t: t._key_list())
         add("_has_exclusive_keys", ["_has_exclusive_keys"], lambda t: t._has_exclusive_keys)
         add("keys(T,T) lazy", ["_key_list"], lambda t: sorted(t.keys(True, True), key=str))
     return F
